@@ -710,7 +710,11 @@ class CGenerator:
             else:
                 file_to_preserve = os.path.join(preserve_dir, filename_nopath)
             preservation = Preservative(file_to_preserve)
-            preservation.Emplace(codemodel.filenames_to_lines)
+            # Emplace only into the file the code was collected from: matching by name alone
+            # also hits every file whose name contains this one (X.py / TestX.py).
+            own_file = OrderedDict([(filename_nopath, codemodel.filenames_to_lines[filename_nopath])])
+            preservation.Emplace(own_file)
+            codemodel.filenames_to_lines.update(own_file)
 '''------------------------------------------------------------------------------------------------------'''
 
 
